@@ -404,3 +404,70 @@ func ForEachExit(info *types.Info, body *ast.BlockStmt, visit func(s *State, kin
 	w.Walk()
 	return w.Paths, w.Truncated
 }
+
+// LastAssigned returns the expression most recently assigned to obj along this path
+// (simple and parallel assignments, var declarations with values), or nil.
+func (s *State) LastAssigned(info *types.Info, obj types.Object) ast.Expr {
+	for i := len(s.Steps) - 1; i >= 0; i-- {
+		switch x := s.Steps[i].(type) {
+		case *ast.AssignStmt:
+			if len(x.Lhs) == len(x.Rhs) {
+				for j, l := range x.Lhs {
+					if ObjOf(info, l) == obj {
+						return x.Rhs[j]
+					}
+				}
+			} else {
+				for _, l := range x.Lhs {
+					if ObjOf(info, l) == obj {
+						return nil // multi-value call result
+					}
+				}
+			}
+		case *ast.DeclStmt:
+			if gd, ok := x.Decl.(*ast.GenDecl); ok {
+				for _, spec := range gd.Specs {
+					if vs, ok := spec.(*ast.ValueSpec); ok {
+						for j, name := range vs.Names {
+							if info.Defs[name] == obj {
+								if j < len(vs.Values) {
+									return vs.Values[j]
+								}
+								return nil
+							}
+						}
+					}
+				}
+			}
+		}
+	}
+	return nil
+}
+
+// ConstStringOnPath evaluates e to a string constant, following variables to their last
+// assignment on this path and folding + of resolvable operands. Unresolvable parts are
+// reported through the callback `unknown` (e.g. a loop variable) and contribute "".
+func (s *State) ConstStringOnPath(info *types.Info, e ast.Expr, unknown func(ast.Expr)) (string, bool) {
+	e = Unparen(e)
+	if v, ok := ConstString(info, e); ok {
+		return v, true
+	}
+	switch x := e.(type) {
+	case *ast.BinaryExpr:
+		if x.Op == token.ADD {
+			l, lok := s.ConstStringOnPath(info, x.X, unknown)
+			r, rok := s.ConstStringOnPath(info, x.Y, unknown)
+			return l + r, lok && rok
+		}
+	case *ast.Ident:
+		if obj := ObjOf(info, x); obj != nil {
+			if rhs := s.LastAssigned(info, obj); rhs != nil {
+				return s.ConstStringOnPath(info, rhs, unknown)
+			}
+		}
+	}
+	if unknown != nil {
+		unknown(e)
+	}
+	return "", false
+}
